@@ -91,6 +91,7 @@ def construct_outcome(docs, safes=None):
     import awesomeyaml.errors as errors
     t = build_tree(docs, safes)
     del vmod.CALLS[:]
+    del vmod.STACK[:]
     try:
         Config(t)
         return {"status": "ok", "paths": [], "calls": len(vmod.CALLS)}
